@@ -51,9 +51,14 @@ def run(chk, repo, tier):
     p = rets[0]
     ret = p.ret
     fits = [a for a in nf.value_atoms(ret) if is_app(a, 'call:zernike.zernike_fit')]
-    fit_events = p.calls('zernike.zernike_fit')
-    if not fit_events:
-        raise AnalysisError('zernike_remove does not call zernike_fit')
+    if not fits:
+        # the fit is written out in place: the coefficients are the product with the pseudo-inverse / least-squares solution
+        fits = [a for a in nf.value_atoms(ret) if is_app(a, ('einsum', 'dot', 'matmul', 'tensordot'))
+                and any(is_app(b, ('linalg.pinv', 'linalg.lstsq')) for b in nf.value_atoms(Poly.atom(a)))]
+        # the innermost such product is the coefficient vector
+        fits = [a for a in fits if not any(b != a and b in fits for b in nf.value_atoms(Poly.atom(a)))]
+    if not fits:
+        raise AnalysisError('zernike_remove: no fit (zernike_fit call or pseudo-inverse product) found in the result')
     removed = nf.app('asis', S('opd')) * 0 + (S('opd') - ret) if isinstance(ret, Poly) else None
     mapping = {a: S('__coeffs__') for a in fits}
     synth = nf.subst_value(removed, mapping) if removed is not None else None
@@ -70,7 +75,7 @@ def run(chk, repo, tier):
     # C12-c: agreement of (normalize, rho, theta) between all zernike calls, and with the caller's own
     zcalls = [e for e in p.events if e.kind == 'call' and e.depth == 0
               and str(e.data.get('callee', '')).startswith('zernike.zernike')]
-    if len(zcalls) < 2:
+    if len(zcalls) < 1:
         raise AnalysisError('zernike_remove: expected an analysis and a synthesis call')
     ref = zcalls[0]
     for prm in ('normalize', 'rho', 'theta'):
